@@ -212,7 +212,7 @@ def run(rep: Report):
     rep.sample({"renderop": progs[0]})
     # code -> spec: random operation sequences, every data object's log judged by the automaton
     rng = random.Random(rep.seed * 31 + 5)
-    n_seq = 150 if rep.tier == "quick" else 12000
+    n_seq = 150 if rep.tier == "quick" else 5000
     traces = []
     for _ in range(n_seq):
         o = dict(rng.choice(progs)["op"])
